@@ -89,6 +89,7 @@ class Result:
         self.maxdepth = 0
         self.wall = 0.0
         self.model_errors = 0
+        self.pruned = 0
 
 
 def snapshot_fields(canon):
@@ -113,13 +114,19 @@ def snapshot_fields(canon):
             out['cmemo'] = part[2:]
         elif part.startswith('S:'):
             out['started'] = part[2:] == '1'
+        elif part.startswith('FO:'):
+            out['fault_ops'] = int(part[3:])
     return out
 
 
 def run_explorer(exe, ops, depth=60, faults=0, submits=0, qbound=2, introspect=False, observe_flags=False,
-                 max_exec=3000000, max_states=500000, warm=None, deadline=None, outfile=None, submit_in_nt=False):
+                 max_exec=3000000, max_states=500000, warm=None, deadline=None, outfile=None, submit_in_nt=False, guards=-1, fault_ops=-1):
     cmd = [exe, 'explore', '--ops', ','.join(ops), '--depth', str(depth), '--faults', str(faults),
            '--submits', str(submits), '--qbound', str(qbound), '--max-exec', str(max_exec), '--max-states', str(max_states)]
+    if guards >= 0:
+        cmd += ['--guards', str(guards)]
+    if fault_ops >= 0:
+        cmd += ['--fault-ops', str(fault_ops)]
     if introspect:
         cmd.append('--introspect')
     if observe_flags:
@@ -173,7 +180,7 @@ class Conformer:
     def __init__(self, zoo, cfg, faults=False, n_menu=0, submit_in_nt=False):
         self.z = desc.for_family(zoo, cfg)
         self.cfg = cfg
-        self.opts = {'faults': faults, 'n_menu': n_menu, 'submit_in_nt': submit_in_nt}
+        self.opts = {'faults': faults, 'n_menu': n_menu, 'submit_in_nt': submit_in_nt, 'cfg': cfg}
         self.worlds = {}
         self.canon = {}
         self.intro = {}
@@ -181,7 +188,7 @@ class Conformer:
         self.result = Result()
 
     def new_world(self):
-        return modelmod.World(self.z, DIALECT[self.cfg], self.opts)
+        return modelmod.make_world(self.z, DIALECT[self.cfg], self.opts)
 
     def history_of(self, sid):
         steps = []
@@ -245,5 +252,6 @@ class Conformer:
                 r.closed = d['closed'] == '1'
                 r.cap = d['cap']
                 r.maxdepth = int(d['maxdepth'])
+                r.pruned = int(d.get('pruned_pending', 0))
                 r.wall = float(d['wall'])
         return self.result
